@@ -602,17 +602,21 @@ example : check (mkLst .max ⟨fun _ => 5, fun t => 500 - t, fun _ => 0, fun _ =
 
 /-! ## `TopocentricFrame.visibility` -/
 
-/-- **visibility_stream_spec.**  An element of the iteration stream (user listeners followed by the station's own
-AOS/LOS, MAX and — with a mask — mask listeners) is yielded by `visibility` **iff** its elevation is not negative or its
-`event` is an instance of an event class of the station's own listeners; order and multiplicity are those of the
-iteration stream (`visibility` is a `filter` of it). -/
-theorem visibility_stream_spec (user : List (Kind × Chan)) (sta : Chan) (hasMask events : Bool)
+/-- **visibility_stream_spec.**  An element of the iteration stream (the caller's listeners — each with a frame of its
+own or created with `frame=None` — followed by the station's own AOS/LOS, MAX and, with a mask, mask listeners) is yielded
+by `visibility` **iff** its elevation is not negative or its `event` is an instance of an event class of the station's own
+listeners; order and multiplicity are those of the iteration stream (`visibility` is a `filter` of it), and that iteration
+stream is the one `orb.iter` produces on its own with the same listeners: being inside `visibility` changes nothing for
+any listener, with or without a frame.
+(Until fix d3db55e the last part was false of the code for `frame=None` listeners — `visibility` re-framed each point in
+place while it was still `listener.prev` — and this theorem was stated for listeners with an explicit frame only.) -/
+theorem visibility_stream_spec (own : Chan) (user : List Spec) (sta : Chan) (hasMask events : Bool)
     (st : List (Option Int)) (samples : List Int) :
     let sk := if events then stationKinds hasMask else []
-    let all := user ++ sk.map (fun k => (k, sta))
-    let stream := iter (all.map (fun kc => mkLst kc.1 kc.2)) st samples
-    (visibility user sta hasMask events st samples).Sublist stream ∧
-    ∀ it, it ∈ visibility user sta hasMask events st samples ↔
+    let all := visListeners user sta hasMask events
+    let stream := iterS own all st samples
+    (visibility own user sta hasMask events st samples).Sublist stream ∧
+    ∀ it, it ∈ visibility own user sta hasMask events st samples ↔
       it ∈ stream ∧ (0 ≤ sta.phi it.t ∨ ∃ i lab kc, it.ev = some (i, lab) ∧ all[i]? = some kc ∧ passes sk kc.1 = true) := by
   intro sk all stream
   refine ⟨List.filter_sublist, fun it => ?_⟩
@@ -645,6 +649,40 @@ theorem visibility_stream_spec (user : List (Kind × Chan)) (sta : Chan) (hasMas
   · have hp : 0 ≤ sta.phi it.t := by omega
     simp [hphi, hp]
 
+/-- **frame-less listeners** (`NodeListener()`, `ApsideListener()`, `AnomalyListener(v)`: `frame=None`, "the frame is
+unchanged").  In `iter` and inside `visibility` alike such a listener is indistinguishable from the same listener
+created with the frame the propagator yields its states in: it reads `listener.prev` and the new state — and every
+state `_bisect` propagates — in that one frame, whatever the station's frame is. -/
+theorem frameless_reads_own_frame (own : Chan) (k : Kind) (pre post : List Spec) (sta : Chan) (hasMask events : Bool)
+    (st : List (Option Int)) (samples : List Int) :
+    iterS own (pre ++ (k, none) :: post) st samples = iterS own (pre ++ (k, some own) :: post) st samples ∧
+    visibility own (pre ++ (k, none) :: post) sta hasMask events st samples =
+      visibility own (pre ++ (k, some own) :: post) sta hasMask events st samples := by
+  have hl : ∀ tail : List Spec, (pre ++ (k, none) :: tail).map (Spec.lst own) = (pre ++ (k, some own) :: tail).map (Spec.lst own) := by
+    intro tail; simp [Spec.lst, Spec.chan]
+  have hk : ∀ (tail : List Spec) (i : Nat),
+      ((pre ++ (k, none) :: tail)[i]?).map Prod.fst = ((pre ++ (k, some own) :: tail)[i]?).map Prod.fst := by
+    intro tail i
+    rw [← List.getElem?_map, ← List.getElem?_map]; simp
+  refine ⟨by simp [iterS, hl], ?_⟩
+  unfold visibility iterS visListeners
+  simp only [List.append_assoc, List.cons_append, hl]
+  apply List.filter_congr
+  intro it _
+  cases hev : it.ev with
+  | none => rfl
+  | some x =>
+    obtain ⟨i, lab⟩ := x
+    have := hk (post ++ (if events then stationKinds hasMask else []).map (fun k => (k, some sta))) i
+    simp only
+    cases h1 : (pre ++ (k, none) :: (post ++ (if events then stationKinds hasMask else []).map (fun k => (k, some sta))))[i]? <;>
+    cases h2 : (pre ++ (k, some own) :: (post ++ (if events then stationKinds hasMask else []).map (fun k => (k, some sta))))[i]? <;>
+    simp_all
+
+example : (visibility ⟨fun _ => 0, fun _ => 0, fun t => t - 500, fun _ => 0, 0⟩ [(.apside, none)]
+    ⟨fun _ => 1, fun _ => 0, fun _ => -5, fun _ => 0, 0⟩ false true [none, none, none] [0, 1000]) =
+      [⟨0, none⟩, ⟨500, some (0, "Periapsis")⟩, ⟨1000, none⟩] := by decide +kernel
+
 /-- which events pass the horizon filter: exactly those of AOS/LOS, mask and MAX listeners (the station's own event
 classes and their subclasses — `MaskEvent` is a `SignalEvent`); node, apsis, light, terminator, anomaly and radial
 velocity events of additional listeners are dropped while the satellite is below the horizon. With `events` false no
@@ -661,7 +699,8 @@ theorem passes_spec (hasMask : Bool) (k : Kind) :
 theorem stationKinds_spec : stationKinds false = [.signal, .max] ∧ stationKinds true = [.signal, .max, .mask] := by
   constructor <;> decide
 
-example : (visibility [(.node, ⟨fun t => t - 500, fun _ => 1, fun _ => 0, fun _ => 0, 0⟩)]
+example : (visibility ⟨fun _ => 0, fun _ => 0, fun _ => 0, fun _ => 0, 0⟩
+    [(.node, some ⟨fun t => t - 500, fun _ => 1, fun _ => 0, fun _ => 0, 0⟩)]
     ⟨fun _ => -1, fun _ => 0, fun _ => 0, fun _ => 0, 0⟩ false true [none, none, none] [0, 1000]) = [] := by decide +kernel
 
 end BeyondVerif.C10
